@@ -541,6 +541,16 @@ fn gen_data(r: &mut Xo, n: usize, p: usize, f32m: bool) -> (Vec<Vec<f64>>, &'sta
             }
         }
     }
+    // negative zero compares equal to zero (lattice data)
+    if r.chance(0.05) {
+        for row in data.iter_mut() {
+            for v in row.iter_mut() {
+                if *v == 0.0 && r.chance(0.5) {
+                    *v = -0.0;
+                }
+            }
+        }
+    }
     // sometimes one column is constant (a box that is flat in that dimension at every level of the tree)
     if p > 1 && r.chance(0.1) {
         let col = r.below(p as u64) as usize;
